@@ -1,11 +1,18 @@
 /- INSTANTIATED by bin/mkc17shgen.py (one proof template for the 7 packages and 5 shapes). DO NOT EDIT: edit the script and re-run it. -/
 import GnarkVerif.Props.C17_gen_sh_bn254
+import GnarkVerif.Props.C17_gen_ff_bn254
 import GnarkVerif.Props.C17_gen_sh_bls12_377
+import GnarkVerif.Props.C17_gen_ff_bls12_377
 import GnarkVerif.Props.C17_gen_sh_bls12_381
+import GnarkVerif.Props.C17_gen_ff_bls12_381
 import GnarkVerif.Props.C17_gen_sh_bls24_315
+import GnarkVerif.Props.C17_gen_ff_bls24_315
 import GnarkVerif.Props.C17_gen_sh_bls24_317
+import GnarkVerif.Props.C17_gen_ff_bls24_317
 import GnarkVerif.Props.C17_gen_sh_bw6_633
+import GnarkVerif.Props.C17_gen_ff_bw6_633
 import GnarkVerif.Props.C17_gen_sh_bw6_761
+import GnarkVerif.Props.C17_gen_ff_bw6_761
 /-
 C17 tie T (SHPLONK BatchVerify): see Props/C17_gen_sh_<curve>.lean. This root module only collects the 7 instances.
 -/
